@@ -13,6 +13,7 @@ import (
 	"crypto/x509/pkix"
 	"encoding/asn1"
 	"fmt"
+	"io"
 	"math/big"
 	"net"
 	"reflect"
@@ -98,7 +99,18 @@ func signers() []*signer {
 	p384 := &signer{name: "P-384", family: "ecdsa", key: e3, ca: stdCA("CA-p384", e3, 41)}
 	p384.others = []*gx509.Certificate{stdCA("CA-p384", e4, 42), p256.ca}
 	sm.others = append(sm.others, p256.ca)
-	return []*signer{sm, rs, p256, p384}
+	// the same keys behind an opaque crypto.Signer (an HSM or KMS handle): only Public and Sign
+	osm := &signer{name: "SM2 behind an opaque crypto.Signer", family: "sm2", key: opaqueSigner{s1}, ca: sm.ca, others: sm.others}
+	op256 := &signer{name: "P-256 behind an opaque crypto.Signer", family: "ecdsa", key: opaqueSigner{e1}, ca: p256.ca, others: p256.others}
+	ors := &signer{name: "RSA-2048 behind an opaque crypto.Signer", family: "rsa", key: opaqueSigner{r1}, ca: rs.ca, others: rs.others}
+	return []*signer{sm, rs, p256, p384, osm, op256, ors}
+}
+
+type opaqueSigner struct{ inner crypto.Signer }
+
+func (o opaqueSigner) Public() crypto.PublicKey { return o.inner.Public() }
+func (o opaqueSigner) Sign(r io.Reader, digest []byte, opts crypto.SignerOpts) ([]byte, error) {
+	return o.inner.Sign(r, digest, opts)
 }
 
 func date(y int, m time.Month, d int) time.Time { return time.Date(y, m, d, 12, 30, 15, 0, time.UTC) }
@@ -216,12 +228,12 @@ func expectedAlg(s *signer, a algT) gx509.SignatureAlgorithm {
 	if a.alg != 0 {
 		return a.alg
 	}
-	switch s.name {
-	case "SM2":
+	switch {
+	case strings.HasPrefix(s.name, "SM2"):
 		return gx509.SM2WithSM3
-	case "RSA-2048":
+	case strings.HasPrefix(s.name, "RSA-2048"):
 		return gx509.SHA256WithRSA
-	case "P-256":
+	case strings.HasPrefix(s.name, "P-256"):
 		return gx509.ECDSAWithSHA256
 	}
 	return gx509.ECDSAWithSHA384
@@ -1122,6 +1134,9 @@ var Prop = &harness.Prop{
 		var u []harness.Unit
 		for i := 0; i < 4; i++ {
 			u = append(u, certUnit(i), csrUnit(i), crlUnit(i), faultUnit(i))
+		}
+		for i := 4; i < 7; i++ { // opaque signers
+			u = append(u, certUnit(i), csrUnit(i), crlUnit(i))
 		}
 		for p := 0; p < 4; p++ {
 			u = append(u, bundleUnit(p, 4))
